@@ -1,5 +1,6 @@
 """C11 — reordering is a deterministic, order-insensitive permutation (comparator core + permutation oracle)."""
 import itertools
+import re
 
 from . import common, coqterm
 
@@ -46,6 +47,15 @@ def gen_cases(tier, seed):
     for _ in range(nmat):
         names = [rand_ident(rnd) for _ in range(rnd.randint(2, 10))]
         cases.append({"kind": "vsm", "names": names})
+    # families that share a prefix, so that numeric chunks meet at the same position
+    NUMS = ["9", "10", "09", "010", "0", "00", "1", "100", str(2 ** 64 - 1), str(2 ** 64), str(10 ** 20), str(10 ** 21 + 5), "18446744073709551615", "99999999999999999999"]
+    for _ in range(nmat // 3):
+        pre = rnd.choice(["a", "x_", "B", "", "v1_"])
+        suf = rnd.choice(["", "", "b", "_2"])
+        names = [pre + n + suf for n in rnd.sample(NUMS, rnd.randint(3, 7))]
+        if pre == "":
+            names = ["n" + x for x in names]
+        cases.append({"kind": "vsm", "names": names})
     # compare_items on mod / extern crate groups
     nit = 60 if tier == "quick" else 600
     for _ in range(nit):
@@ -89,6 +99,33 @@ def gen_cases(tier, seed):
                 texts.append("\n".join(perm) + "\n")
         se = rnd.choice(["2015", "2021", "2024"])
         cases.append({"kind": "perms", "config": [["style_edition", se]], "texts": texts, "names": names, "form": form})
+    # group boundaries: an element never crosses a blank line (mod / extern crate always; use unless regrouping),
+    # a #[macro_use] item, a skipped item or an item of another kind
+    nb = 40 if tier == "quick" else 500
+    for _ in range(nb):
+        form = rnd.choice(["mod", "extern", "use"])
+        names = set()
+        while len(names) < 6:
+            x = rand_ident(rnd)
+            if valid_ident(x) and len(x) < 10 and not overflow_name(x):
+                names.add(x)
+        names = list(names)
+        rnd.shuffle(names)
+        g1, g2 = names[:3], names[3:]
+        decl = {"mod": "mod %s;", "extern": "extern crate %s;", "use": "use %s::y;"}[form]
+        boundary = rnd.choice(["blank", "macro_use", "skip", "other_kind"])
+        if boundary == "blank":
+            mid = ""
+        elif boundary == "macro_use":
+            mid = "#[macro_use]\n" + (decl % "zz_macro")
+        elif boundary == "skip":
+            mid = "#[rustfmt::skip]\n" + (decl % "zz_skip")
+        else:
+            mid = "const ZZ_OTHER: u8 = 0;" if form != "use" else "mod zz_other;"
+        text = "\n".join(decl % x for x in g1) + "\n" + mid + "\n" + "\n".join(decl % x for x in g2) + "\n"
+        cfg = [["style_edition", rnd.choice(["2015", "2024"])], ["group_imports", rnd.choice(["Preserve", "StdExternalCrate", "One"])],
+               ["reorder_imports", rnd.choice(["true", "true", "false"])], ["reorder_modules", rnd.choice(["true", "true", "false"])]]
+        cases.append({"kind": "perms", "config": cfg, "texts": [text], "names": names, "form": form, "boundary": boundary, "g1": g1, "g2": g2})
     return cases
 
 
@@ -155,6 +192,35 @@ def oracle(c, r):
                     if m[i][j] == 1 and names[i] != names[j]:
                         key = "vs_eq_distinct_overflow" if (overflow_name(names[i]) or overflow_name(names[j])) else "vs_eq_distinct"
                         bad.append((key, "version_sort ranks distinct identifiers Equal: %r vs %r" % (names[i], names[j])))
+    if c["kind"] == "perms" and "boundary" in c:
+        out = r["outs"][0]
+        if out is None:
+            return [("perm_format_failed", "formatting failed for %r" % c["texts"][0])]
+        cfgd = dict(c["config"])
+        regroup = c["form"] == "use" and cfgd["group_imports"] != "Preserve"
+        if c["boundary"] == "blank" and regroup:
+            return bad          # regrouping merges the blank-line groups of imports (allowed)
+        order = []
+        for ln in out.split("\n"):
+            for x in c["names"] + ["zz_macro", "zz_skip", "zz_other", "ZZ_OTHER"]:
+                if re.search(r"\b%s\b" % re.escape(x), ln):
+                    order.append(x)
+        def pos(x):
+            return order.index(x) if x in order else -1
+        if any(pos(x) < 0 for x in c["names"]):
+            return [("boundary_element_lost", "a declaration is missing from %r" % out)]
+        if c["boundary"] == "blank":
+            # the blank line must still separate the two groups
+            blocks = [b for b in re.split(r"\n\s*\n", out.strip()) if b.strip()]
+            sets = [set(x for x in c["names"] if re.search(r"\b%s\b" % re.escape(x), b)) for b in blocks]
+            if sets != [set(c["g1"]), set(c["g2"])]:
+                bad.append(("boundary_crossed", "%s declarations moved across a blank line (%r): %r -> %r" % (c["form"], c["config"], c["texts"][0], out)))
+        else:
+            marker = {"macro_use": "zz_macro", "skip": "zz_skip", "other_kind": "zz_other" if c["form"] == "use" else "ZZ_OTHER"}[c["boundary"]]
+            m = pos(marker)
+            if m < 0 or not (all(pos(x) < m for x in c["g1"]) and all(pos(x) > m for x in c["g2"])):
+                bad.append(("boundary_crossed", "%s declarations moved across a %s item (%r): %r -> %r" % (c["form"], c["boundary"], c["config"], c["texts"][0], out)))
+        return bad
     if c["kind"] == "perms":
         outs = r["outs"]
         if any(o is None for o in outs):
@@ -173,7 +239,7 @@ def oracle(c, r):
 def nontrivial(c, r):
     if c["kind"] in ("vsm", "items"):
         return r.get("matrix") is not None and len(r["matrix"]) >= 3
-    return len(c["texts"]) >= 6
+    return len(c["texts"]) >= 6 or "boundary" in c
 
 
 def run(tier, seed, replay):
